@@ -92,3 +92,12 @@ package service
 //@   callsite NewUDPSessionRelay: forall j int :: 0 <= j && j < len(listeners) ==> batchSizeOK(listeners[j].relayBatchSize) && batchSizeOK(listeners[j].serverRecvBatchSize) && listeners[j].sendChannelCapacity >= 64
 //@   callsite NewUDPNATRelay: forall j int :: 0 <= j && j < len(listeners) ==> batchSizeOK(listeners[j].relayBatchSize) && batchSizeOK(listeners[j].serverRecvBatchSize) && listeners[j].sendChannelCapacity >= 64 && listeners[j].natTimeout > 0
 //@   callsite NewUDPTransparentRelay: forall j int :: 0 <= j && j < len(listeners) ==> batchSizeOK(listeners[j].relayBatchSize) && batchSizeOK(listeners[j].serverRecvBatchSize) && listeners[j].sendChannelCapacity >= 64 && listeners[j].natTimeout > 0
+
+// Shadowsocks 2022 cipher configurations are only built from keys of exactly the method's length (the
+// main key and, on a client, every identity key).
+//@ func (*ClientConfig).Initialize
+//@   requires !isnil(cc) && conn.AddrWF(cc.Endpoint) && conn.AddrWF(cc.TCPAddress) && conn.AddrWF(cc.UDPAddress)
+//@   callsite NewClientCipherConfig: ss2022.pskLen(cc.Protocol) != 0 && len(cc.PSK) == ss2022.pskLen(cc.Protocol)
+//@   callsite NewClientCipherConfig: forall j int :: 0 <= j && j < len(cc.IPSKs) ==> len(cc.IPSKs[j]) == ss2022.pskLen(cc.Protocol)
+//@   callsite NewClientCipherConfig: samearray(arg0, cc.PSK) && sliceoff(arg0) == sliceoff(cc.PSK) && len(arg0) == len(cc.PSK) && samearray(arg1, cc.IPSKs) && sliceoff(arg1) == sliceoff(cc.IPSKs) && len(arg1) == len(cc.IPSKs)
+//@   ensures isnil(err) ==> cc.Network == "ip" || cc.Network == "ip4" || cc.Network == "ip6"
